@@ -336,6 +336,16 @@ def read_all(ctx, fmt, path, enc, opts):
     return trees, exc, out.getvalue(), err.getvalue()
 
 
+def _no_vroot(eo, bank):
+    """The TIGER-XML file is written without a node above the top constituent:
+    possible when every root has one constituent child - and that child is not
+    itself labelled VROOT (a file cannot say "a VROOT below the root")."""
+    return bool(eo.get('no_vroot')) and all(
+        len(sp['root']['c']) == 1 and 'c' in sp['root']['c'][0]
+        and not str(sp['root']['c'][0].get('l', '')).startswith('VROOT')
+        for sp in bank)
+
+
 def run_case(ctx, case, probe_obj=None):
     """case: bank, fmt, enc_opts (how the file is written), opts (reader),
     sep, gz, encoding"""
@@ -355,9 +365,7 @@ def run_case(ctx, case, probe_obj=None):
         if eo.get('no_final_newline'):
             text = text[:-1]
     else:
-        no_vroot = eo.get('no_vroot') and all(
-            len(sp['root']['c']) == 1 and 'c' in sp['root']['c'][0]
-            for sp in bank)
+        no_vroot = _no_vroot(eo, bank)
         text = codec.tigerxml_encode(bank, rng if eo.get('shuffle') else None,
                                      with_vroot=not no_vroot,
                                      sid_format=eo.get('sid_format', 's%d'),
@@ -432,9 +440,7 @@ def run_case(ctx, case, probe_obj=None):
         exp = model.from_spec(spec['root'])
         if eo.get('empty_root'):
             exp.attrs['_emptyroot'] = True
-        if fmt == 'tigerxml' and eo.get('no_vroot') and all(
-                len(sp['root']['c']) == 1 and 'c' in sp['root']['c'][0]
-                for sp in bank):
+        if fmt == 'tigerxml' and _no_vroot(eo, bank):
             # the file has no node above the top constituent, hence no edge
             # label for it
             exp.children[0].edge = '--'
@@ -491,9 +497,7 @@ def run_case(ctx, case, probe_obj=None):
         ctx.stratum('discobrackets token that is a bare parenthesis')
     if v4:
         ctx.stratum('export v4')
-    if fmt == 'tigerxml' and eo.get('no_vroot') and all(
-            len(sp['root']['c']) == 1 and 'c' in sp['root']['c'][0]
-            for sp in bank):
+    if fmt == 'tigerxml' and _no_vroot(eo, bank):
         ctx.stratum('tigerxml without VROOT node')
     if any(len(n.get('c', [])) > 6 for sp in bank for n in gen.walk(sp['root'])):
         ctx.stratum('arity > 6')
